@@ -124,12 +124,11 @@ class HashTableGen:
                     ops += ["it_next", "it_next"] + self._tail(4) + ["destroy"]
                     out.append(ops)
         out.append(["new_default", self._add(1, 2), self._add(0, 3), self._add(1, 4), "remove 1", "remove 1", "destroy"])
-        if focus in ("fault", "all"):
-            out += self.fault_enumeration()
         return out
 
     def fault_enumeration(self):
-        """every allocation of every allocating op refused once (uses fail=; not part of focus=None)"""
+        """every allocation of every allocating op refused once.  Uses fail= explicitly, so it is not
+        part of any focus stream (the checks add refusals themselves); kept for direct use."""
         out = []
         for k in (1, 2, 3):
             out.append([f"new cap=1 lf=0.5 hash=id fail={k}", "destroy"])
